@@ -329,7 +329,9 @@ def random_case(rng, maxk=9, arg_w=6):
         defect = "cycle"
         ps = [it for kd, it in its if kd == "p"]
         if ps:
-            p = rng.choice(ps); p["args"] = list(dict.fromkeys(p["args"] + [rng.choice(prov_ids[rng.choice(keep)])]))
+            # the argument that closes the cycle goes to a random position among the provider's arguments
+            p = rng.choice(ps); extra = rng.choice(prov_ids[rng.choice(keep)]); a = list(p["args"])
+            a.insert(rng.randrange(len(a) + 1), extra); p["args"] = list(dict.fromkeys(a))
             if p["struct"]:
                 p["fields"] = ["F%d" % i for i in range(len(p["args"]))]
     elif r < 0.38:
@@ -409,6 +411,25 @@ def special_cases():
     cs.append((mkset(0, [mkset(4, [s1, s2, s3])]), [], 4))
     cs.append((mkset(0, [s1, s2]), [], 0))
     cs.append((mkset(0, [s1, s2, s3]), [], 4))
+    # lassos entered at depth d through a provider with several arguments, the cycle continuing through the
+    # first / middle / last of them; tail types numbered before and after the cycle's types
+    for d in (1, 2, 3, 4, 5, 7):
+        for pos in (0, 1, 2):
+            for tail_first in (True, False):
+                tail = [2 * i for i in range(d)] if tail_first else [2 * (i + 10) for i in range(d)]
+                cyc = [2 * (i + 10) for i in range(3)] if tail_first else [2 * i for i in range(3)]
+                leaves = [40, 42]
+                provs, nid = [], 1
+                for i in range(d - 1):
+                    provs.append(mkprov(nid, tail[i], [tail[i + 1]])); nid += 1
+                provs.append(mkprov(nid, tail[d - 1], [cyc[0]])); nid += 1
+                entry_args = list(leaves); entry_args.insert(pos, cyc[1])
+                provs.append(mkprov(nid, cyc[0], entry_args)); nid += 1
+                provs.append(mkprov(nid, cyc[1], [cyc[2]])); nid += 1
+                provs.append(mkprov(nid, cyc[2], [cyc[0]])); nid += 1
+                for l in leaves:
+                    provs.append(mkprov(nid, l, [])); nid += 1
+                cs.append((mkset(0, [], provs), [], tail[0]))
     # diamond lattice depth d (2^d paths)
     for d in (6, 20):
         provs = [mkprov(1, 0, [])]
